@@ -75,6 +75,11 @@ CLAIMED = {
    text='Clauses: R1 the fold table equals the X operator table for every ordering/zero-test combination; R2 every rewrite (~=, >=, >, <=, unary minus, and anything else OptimiseExpr does to an operator over each operand class, unary operators over every operator below) preserves meaning on the ordering domain; R3 folding of + - unary- over all of int has no signed overflow and wraps; R4 folded constants are materialised in the requested register; R5 val names are propagated only when constant; R6 genConst loads the requested value into the requested register, immediate inside (-65536,65536), one pool word per value outside.',
    note='Comparison operators inspect operands only through their order, so the ordering domain is exact for them; agreement with the run-time code sequence where the subtraction inside < wraps is a documented gap (not decided).',
    ref='DESIGN.md section 5, C07'),
+ 'C08': dict(
+   technique='static analysis: abstract interpretation of xcmp::LowerDirectives, CodeGen stub generation and the call templates with symbolic frame size / array space; a small affine executor of Hex instructions for the lowered prologue/epilogue; symbolic frame-size lower bounds for outgoing words',
+   text='Clauses: R1 prologue/epilogue are exact inverses on the stack pointer for functions and procedures with S=0 and S>0, link/result slots are where the caller expects them, formal i == actual i, frame-base lowering is S+O-1; R2 the initial stack pointer keeps every word the exit stub and stop touch below the arrays and inside the 200000-word memory shared with the simulator; R3 each call/syscall/stop sequence sizes the frame for its outgoing words; R4 array placement from the top of memory; R5/R6 frame balance and spill/outgoing-actual discipline (import of C01-R5/R8).',
+   note='NOT decided: per-access bounds of arbitrary executions, recursion depth vs. stack budget, array subscripts, unchecked array lengths. Trusted: clang AST; interpreter; ISA semantics of 12 instructions in the affine executor.',
+   ref='DESIGN.md section 5, C08'),
 }
 
 NOT_YET = 'engine not finished yet in this round (DESIGN.md section 7 build order); no check is registered, nothing is claimed'
